@@ -16,6 +16,8 @@ import time
 from fractions import Fraction
 
 ROOT = os.path.dirname(os.path.dirname(os.path.abspath(__file__)))
+# evidence and replays of the registered checks live under /verif; seed experiments (tools_seedall.py) redirect them
+OUT = os.environ.get("VERIF_OUT", ROOT)
 SPEC = os.path.join(ROOT, "spec")
 OVR = os.path.join(SPEC, "overrides")
 TLA_JAR = "/opt/veriftools/tla/tla2tools.jar"
@@ -333,7 +335,7 @@ class Check:
                 unlisted.append(v)
         for what, n in listed.items():
             print("KNOWN-FINDING: property=%s %s (%d occurrences this run)" % (self.pid, what, n))
-        os.makedirs(os.path.join(ROOT, "replays"), exist_ok=True)
+        os.makedirs(os.path.join(OUT, "replays"), exist_ok=True)
         seen = set()
         nprint = 0
         for v in unlisted:
@@ -342,7 +344,7 @@ class Check:
                 continue
             seen.add(key)
             h = hashlib.md5(json.dumps(v, sort_keys=True, default=str).encode()).hexdigest()[:10]
-            path = os.path.join(ROOT, "replays", "%s-%s.json" % (self.pid, h))
+            path = os.path.join(OUT, "replays", "%s-%s.json" % (self.pid, h))
             with open(path, "w") as f:
                 json.dump({"property": self.pid, **v}, f, indent=1, default=str)
             if nprint < 25:
@@ -367,8 +369,8 @@ class Check:
         ev = {"property_id": self.pid, "tier": self.tier, "seed": self.seed, "level": self.level,
               "coverage": cov, "assumptions": self.assumptions, "wall_s": round(wall, 2),
               "violations": len(unlisted)}
-        os.makedirs(os.path.join(ROOT, "evidence"), exist_ok=True)
-        with open(os.path.join(ROOT, "evidence", self.pid + ".json"), "w") as f:
+        os.makedirs(os.path.join(OUT, "evidence"), exist_ok=True)
+        with open(os.path.join(OUT, "evidence", self.pid + ".json"), "w") as f:
             json.dump(ev, f, indent=1, default=str)
         shutil.rmtree(self.tmp, ignore_errors=True)
         close_pools()
